@@ -174,6 +174,35 @@ fn show(p: &P, _t: &[OpCfg]) -> String {
     }
 }
 
+/// C12: the printed text of a derived expression parses back (as a flat expression) to the
+/// same variables and the same value (modulo associativity of flagged operators).
+/// Returns "-" when it does, a description otherwise.
+fn round_trip(p: &P, t: &[OpCfg]) -> String {
+    let (text, vars, val) = match p {
+        P::Fl(f) => (f.unparse().to_string(), f.var_names().to_vec(), f.eval(&sym_vars(f.var_names().len()))),
+        P::De(d) => (d.unparse().to_string(), d.var_names().to_vec(), d.eval(&sym_vars(d.var_names().len()))),
+    };
+    let g = match F::parse(&text) {
+        Ok(g) => g,
+        Err(_) => return format!("reparse-error:{}", hex(&text)),
+    };
+    // a derived expression may list variables that no longer occur in its text
+    let gv = g.var_names().to_vec();
+    if gv.iter().any(|n| !vars.contains(n)) {
+        return format!("vars:{}", hex(&text));
+    }
+    // bind the re-parsed variables to the symbols they have in the original listing
+    let all = sym_vars(vars.len());
+    let bound: Vec<Sym> = gv.iter().map(|n| all[vars.iter().position(|m| m == n).unwrap()].clone()).collect();
+    let a = crate::k_flat::res_nf(&val, t);
+    let b = crate::k_flat::res_nf(&g.eval(&bound), t);
+    if a == b {
+        "-".to_string()
+    } else {
+        format!("value:{}", hex(&text))
+    }
+}
+
 pub fn run(f: &[&str]) -> String {
     let t = table_from_field(f[0]);
     set_table(&t);
@@ -191,6 +220,7 @@ pub fn run(f: &[&str]) -> String {
             }
         }
         let mut out = vec![];
+        let mut rtbad = "-".to_string();
         for step in &hist {
             let g: Vec<&str> = step.split(':').collect();
             // index 99 = the most recent pool entry
@@ -260,12 +290,18 @@ pub fn run(f: &[&str]) -> String {
             match r {
                 Ok(Ok(p)) => {
                     out.push(format!("ok {}", show(&p, &t)));
+                    if rtbad == "-" {
+                        let r = round_trip(&p, &t);
+                        if r != "-" {
+                            rtbad = format!("step{}:{}", out.len() - 1, r);
+                        }
+                    }
                     pool.push(p);
                 }
                 Ok(Err(_)) => out.push("E".to_string()),
                 Err(_) => out.push("PANIC".to_string()),
             }
         }
-        format!("pool=ok\tsteps={}", out.join("|"))
+        format!("pool=ok\tsteps={}\trtbad={}", out.join("|"), rtbad)
     })
 }
